@@ -93,6 +93,7 @@ type Pool struct {
 	Abort func() bool
 
 	workers []*worker
+	hangs   int // cases that hung when run alone, over the life of the pool
 }
 
 type worker struct {
@@ -320,9 +321,9 @@ func (p *Pool) Run(cases []any, onResult func(i int, out json.RawMessage, crash 
 	}
 	p.CaseTimeout = 4 * saved
 	defer func() { p.CaseTimeout = saved }()
-	hangs, unretried := 0, 0
+	unretried := 0
 	for _, i := range deferred {
-		if hangs >= 2 {
+		if p.hangs >= 2 {
 			// Two cases have hung with the machine to themselves: the verdict of this run is settled, and every
 			// further one would cost four times the case limit. The rest is not run again and not judged.
 			unretried++
@@ -334,7 +335,7 @@ func (p *Pool) Run(cases []any, onResult func(i int, out json.RawMessage, crash 
 			continue
 		}
 		if crash != nil {
-			hangs++
+			p.hangs++
 		}
 		if crash == nil {
 			fmt.Printf("NOTE: a case that was killed or timed out next to the other workers finished when run alone: %s\n", truncate(string(enc[i]), 300))
